@@ -281,6 +281,10 @@ def ident_ttl(d):
     return (py_ident(d), int(d['ttl']))
 
 
+def py_ident_obj(o):
+    return obj_ident_ttl(o)[0]
+
+
 def obj_ident_ttl(o):
     v = vrec0(o)
     k = {1: 'KAddress', 2: 'KHinfo', 3: 'KPointer', 4: 'KText', 5: 'KService', 6: 'KNsec'}[v[0]]
